@@ -235,10 +235,20 @@ func (c *Condition) String() string {
 
 	if !isNumberRegex.MatchString(value) {
 		// if not a decimal then quote
-		value = strconv.Quote(value)
+		value = quoteValue(value)
 	}
 
 	return fmt.Sprintf(`%s %s %s`, property, c.operator, value)
+}
+
+// quotes a value as a string literal. The lexer treats any quote preceded by a backslash character as part of
+// the literal, even if that backslash is itself escaped, so a trailing backslash is written as a unicode escape.
+func quoteValue(value string) string {
+	quoted := strconv.Quote(value)
+	if strings.HasSuffix(value, `\`) {
+		quoted = quoted[:len(quoted)-3] + `\u005c"`
+	}
+	return quoted
 }
 
 // BoolCombination is a AND or OR combination of multiple conditions
